@@ -299,6 +299,50 @@ def run(ctx, case):
                 which.beats(qs, sn)
             except Exception:
                 pass
+    mets = {c[3] for c in changes}
+    if len(mets) == 1:
+        # one argument at a time: the same tempo points (same ms, same bpm) under another metronome, same snapper,
+        # same process - anything remembered about the first list that is not keyed on the metronome shows here
+        from reamber.algorithms.timing.utils.BpmChangeOffset import BpmChangeOffset
+
+        met = next(iter(mets))
+        met2 = F(3 if met != 3 else 5) if case.get("rows_seed", 0) % 2 else F(2 if met != 2 else 7)
+        ch2 = []
+        for m, b, v, _t in changes:
+            m2, b2 = divmod(m * met + b, met2)
+            ch2.append((int(m2), b2, v, met2))
+        try:
+            truth3 = rt.RefTiming(F(initial), ch2)
+        except Exception:
+            truth3 = None
+        if truth3 is not None and [float(x) for x in truth3.ms] == [float(x) for x in truth.ms]:
+            twins = []
+            try:
+                twins.append(TimingMap.from_bpm_changes_snap(initial, [BpmChangeSnap(float(v), int(t), Snap(m, b, int(t))) for m, b, v, t in ch2], reseat=False))
+            except Exception:
+                pass
+            try:
+                twins.append(TimingMap.from_bpm_changes_offset([BpmChangeOffset(bpm=float(c[2]), metronome=float(met2), offset=float(ms)) for ms, c in zip(truth.ms, truth.ch)]))
+            except Exception:
+                pass
+            try:
+                twins.append(BpmList([Bpm(float(ms), float(c[2]), float(met2)) for ms, c in zip(truth.ms, truth.ch)]).to_timing_map())
+            except Exception:
+                pass
+            snaps3 = []
+            for s_ in snaps:
+                m3, b3 = divmod(F(s_.measure) * met + F(s_.beat), met2)
+                snaps3.append(Snap(int(m3), b3, met2))
+            for k3, tw in enumerate(twins):
+                if k3 < 2:
+                    tw._rv_truth = truth3
+                ctx.state("c10.metronome_twin", (int(met), int(met2), k3))
+                try:
+                    if snaps3:
+                        tw.offsets(snaps3)
+                    tw.snaps(qs, sn)
+                except Exception:
+                    pass
     if case.get("edit") and len(changes) > 1:
         # the same TimingMap object after an edit that keeps the number of changes: every bpm doubled,
         # change times halved around the initial offset (same positions, new timeline)
